@@ -2,6 +2,7 @@ package main
 
 import (
 	"fmt"
+	"go/token"
 	"go/types"
 	"sort"
 	"strings"
@@ -16,6 +17,20 @@ type ScanResult struct {
 	OK     bool
 	Where  string
 	Detail string
+}
+
+func matchPattern(pat, name string) bool {
+	switch {
+	case pat == "*":
+		return true
+	case strings.HasPrefix(pat, "*") && strings.HasSuffix(pat, "*") && len(pat) > 1:
+		return strings.Contains(name, strings.Trim(pat, "*"))
+	case strings.HasPrefix(pat, "*"):
+		return strings.HasSuffix(name, pat[1:])
+	case strings.HasSuffix(pat, "*"):
+		return strings.HasPrefix(name, pat[:len(pat)-1])
+	}
+	return pat == name
 }
 
 func allowedFn(key string, allow []string) bool {
@@ -96,6 +111,47 @@ func (e *Engine) runScans(prop string) []ScanResult {
 								}
 							}
 						}
+					case "stores-any":
+						// any field of a struct type whose name matches the target pattern (leading/trailing *)
+						var fa *ssa.FieldAddr
+						if st, ok := in.(*ssa.Store); ok {
+							fa, _ = st.Addr.(*ssa.FieldAddr)
+							// stores into nested value fields: x.A.B = v  (FieldAddr of FieldAddr)
+							for fa != nil {
+								if matchPattern(fr.Target, strings.SplitN(fieldOf(fa), ".", 2)[0]) {
+									hit = true
+									break
+								}
+								inner, ok := fa.X.(*ssa.FieldAddr)
+								if !ok {
+									break
+								}
+								fa = inner
+							}
+						}
+						if mu, ok := in.(*ssa.MapUpdate); ok {
+							if u, ok := mu.Map.(*ssa.UnOp); ok {
+								if f2, ok := u.X.(*ssa.FieldAddr); ok && matchPattern(fr.Target, strings.SplitN(fieldOf(f2), ".", 2)[0]) {
+									hit = true
+								}
+							}
+						}
+						// stores into elements of slices held in such fields: x.Nodes[i] = v
+						if st, ok := in.(*ssa.Store); ok {
+							if ia, ok := st.Addr.(*ssa.IndexAddr); ok {
+								if u, ok := ia.X.(*ssa.UnOp); ok {
+									if f2, ok := u.X.(*ssa.FieldAddr); ok && matchPattern(fr.Target, strings.SplitN(fieldOf(f2), ".", 2)[0]) {
+										hit = true
+									}
+								}
+							}
+						}
+					case "stores-global":
+						if st, ok := in.(*ssa.Store); ok {
+							if g, ok := st.Addr.(*ssa.Global); ok && g.Pkg != nil && strings.HasPrefix(g.Pkg.Pkg.Path(), jetPath) && matchPattern(fr.Target, g.Name()) {
+								hit = true
+							}
+						}
 					case "loads":
 						if u, ok := in.(*ssa.UnOp); ok {
 							if fa, ok := u.X.(*ssa.FieldAddr); ok && fieldOf(fa) == fr.Target {
@@ -135,4 +191,179 @@ func (e *Engine) runScans(prop string) []ScanResult {
 		out = append(out, res)
 	}
 	return out
+}
+
+// isWriteAccess: does the value at this address get modified (store to the field, or update of the map it holds)?
+func isWriteAccess(addr ssa.Value) bool {
+	if u, ok := addr.(*ssa.UnOp); ok {
+		// the loaded value itself (package variables have no referrer lists)
+		if vr := u.Referrers(); vr != nil {
+			for _, rr := range *vr {
+				switch w := rr.(type) {
+				case *ssa.MapUpdate:
+					if w.Map == ssa.Value(u) {
+						return true
+					}
+				case ssa.CallInstruction:
+					if b, ok := w.Common().Value.(*ssa.Builtin); ok && b.Name() == "delete" {
+						return true
+					}
+				}
+			}
+		}
+		return false
+	}
+	refs := addr.Referrers()
+	if refs == nil {
+		return false
+	}
+	for _, r := range *refs {
+		switch u := r.(type) {
+		case *ssa.Store:
+			if u.Addr == addr {
+				return true
+			}
+		case *ssa.UnOp:
+			// loaded value: look at how the map is used
+			if vr := u.Referrers(); vr != nil {
+				for _, rr := range *vr {
+					switch w := rr.(type) {
+					case *ssa.MapUpdate:
+						if w.Map == ssa.Value(u) {
+							return true
+						}
+					case ssa.CallInstruction:
+						if b, ok := w.Common().Value.(*ssa.Builtin); ok && b.Name() == "delete" {
+							return true
+						}
+					}
+				}
+			}
+		}
+	}
+	return false
+}
+
+// guardAccess emits the lock obligation for an access to a guarded field.
+func (f *fx) guardAccess(target string, global bool, base Val, baseT types.Type, addr ssa.Value, pos token.Pos) {
+	for _, g := range f.e.specs.Guards {
+		if g.Target != target || g.Global != global {
+			continue
+		}
+		env := f.top.topEnv.withState(f.cur, f.top.entry)
+		env = env.child()
+		var fresh Term = tFalse
+		if !global {
+			env.bound["self"] = TV{V: base, GoT: baseT}
+			if base.Kind == vTerm {
+				fresh = T("Bool", "(> %s %s)", base.T.S, f.top.entryAlloc.S)
+			} else if base.Kind == vLoc && base.Loc.Root == rootHeap {
+				fresh = T("Bool", "(> %s %s)", base.Loc.Ref.S, f.top.entryAlloc.S)
+			}
+		}
+		lock := f.reify(f.evalSpec(g.Lock, env).V)
+		k := "X:Held"
+		f.regKey(k, arraySort("Int", "Int"))
+		held := sel(f.get(f.cur, k), lock)
+		var goal Term
+		what := "read"
+		if isWriteAccess(addr) {
+			what = "write"
+			goal = or(fresh, T("Bool", "(= %s 2)", held.S))
+		} else {
+			goal = or(fresh, T("Bool", "(>= %s 1)", held.S))
+		}
+		where, txt := f.srcLine(pos)
+		base := fmt.Sprintf("guard:%s:%s", target, what)
+		f.oblige("guard", fmt.Sprintf("%s#%d", base, f.ordinal(base)), goal, []string{"C11"}, where, what+" access to "+target+" requires "+g.Src+" to be held: "+txt)
+	}
+}
+
+// guardedFunctions lists the functions that touch a guarded field or package variable.
+func (e *Engine) guardedFunctions() []string {
+	seen := map[string]bool{}
+	var keys []string
+	for _, fn := range e.repoFunctions() {
+		top := fn
+		for top.Parent() != nil {
+			top = top.Parent()
+		}
+		for _, b := range fn.Blocks {
+			for _, in := range b.Instrs {
+				hit := false
+				switch x := in.(type) {
+				case *ssa.FieldAddr:
+					for _, g := range e.specs.Guards {
+						if !g.Global && g.Target == fieldOf(x) {
+							hit = true
+						}
+					}
+				case *ssa.UnOp:
+					if gl, ok := x.X.(*ssa.Global); ok {
+						for _, g := range e.specs.Guards {
+							if g.Global && g.Target == gl.Name() {
+								hit = true
+							}
+						}
+					}
+				}
+				if hit && !seen[fnKey(top)] {
+					seen[fnKey(top)] = true
+					keys = append(keys, fnKey(top))
+				}
+			}
+		}
+	}
+	sort.Strings(keys)
+	return keys
+}
+
+// lockUsers: repository functions that (transitively, over static calls) lock a mutex or touch guarded state.
+func (e *Engine) lockUsers() map[string]bool {
+	if e.lockUserSet != nil {
+		return e.lockUserSet
+	}
+	direct := map[string]bool{}
+	calls := map[string][]string{}
+	for _, k := range e.guardedFunctions() {
+		direct[k] = true
+	}
+	for _, fn := range e.repoFunctions() {
+		k := fnKey(fn)
+		for _, b := range fn.Blocks {
+			for _, in := range b.Instrs {
+				ci, ok := in.(ssa.CallInstruction)
+				if !ok {
+					continue
+				}
+				key := calleeKeyOf(ci.Common())
+				if strings.HasPrefix(key, "(*sync.RWMutex).") || strings.HasPrefix(key, "(*sync.Mutex).") {
+					direct[k] = true
+				}
+				if key != "" {
+					calls[k] = append(calls[k], key)
+				}
+			}
+		}
+		for _, a := range fn.AnonFuncs {
+			calls[k] = append(calls[k], fnKey(a))
+		}
+	}
+	for changed := true; changed; {
+		changed = false
+		for k, cs := range calls {
+			if direct[k] {
+				continue
+			}
+			for _, c := range cs {
+				if direct[c] {
+					direct[k] = true
+					changed = true
+					break
+				}
+			}
+		}
+	}
+	e.lockUserSet = direct
+	return direct
 }
